@@ -132,7 +132,7 @@ pub fn run(tier: Tier, seed: u64) -> Report {
     let r = run_pbt(
         "lists",
         seed,
-        tier.pick(3_000, 100_000),
+        tier.pick(6_000, 200_000),
         || {
             (
                 -1i32..=29,
